@@ -278,7 +278,10 @@ Crash == /\ IsKind("crash")
 
 \* fault injection: the next read(2) on the inotify descriptor fails once
 Fault == /\ IsKind("fault")
-         /\ W' = IF Line.w \in DOMAIN W /\ Line.on THEN [W EXCEPT ![Line.w] = [@ EXCEPT !.flags = @ \cup {"readfault"}]] ELSE W
+         \* (while the fault is on every read fails; once it is off, the failure the reader is parked reporting is still owed)
+         /\ W' = IF Line.w \notin DOMAIN W THEN W
+                 ELSE IF Line.on THEN [W EXCEPT ![Line.w] = [@ EXCEPT !.flags = @ \cup {"readfault", "readfault_on"}]]
+                 ELSE [W EXCEPT ![Line.w] = [@ EXCEPT !.flags = @ \ {"readfault_on"}]]
          /\ UNCHANGED <<seq, g>> /\ Next1
 
 Other == /\ l <= Len(Trace) /\ Line.k \in {"recurse", "bad", "chdir", "spawn", "sleep"}
